@@ -782,6 +782,9 @@ func (an *analyzer) runOnce(fn *ssa.Function, params []aval, free []aval, depth 
 								}
 								nv = aval{k: kNonNil, ptrOf: &e}
 							}
+						} else if a.alloc == nil && a.k == kSlice && len(a.elems) > 0 && len(a.elems) == a.n {
+							// unknown position in a slice value whose elements are all known: one of them
+							nv = aval{k: kNonNil, ptrOf: joinedElem(a)}
 						}
 					case *ssa.Index:
 						a := get(x.X)
@@ -794,6 +797,8 @@ func (an *analyzer) runOnce(fn *ssa.Function, params []aval, free []aval, depth 
 						nv = top
 						if iv, ok := constInt(i); ok && a.elems != nil && iv >= 0 && int(iv) < len(a.elems) {
 							nv = a.elems[iv]
+						} else if !ok && a.k == kSlice && len(a.elems) > 0 && len(a.elems) == a.n {
+							nv = *joinedElem(a)
 						}
 						if a.k == kConst && a.c.Kind() == constant.String {
 							if iv, ok := constInt(i); ok {
@@ -1190,6 +1195,19 @@ func innermostLoops(fn *ssa.Function) map[int]*uloop {
 		}
 	}
 	return out
+}
+
+// joinedElem: the join of the known elements of a slice value (one of them is
+// what an access at an unknown position yields).
+func joinedElem(a aval) *aval {
+	e := bot
+	for _, x := range a.elems {
+		if x.k == kBot {
+			x = top
+		}
+		e = join(e, x)
+	}
+	return &e
 }
 
 func (an *analyzer) load(x *ssa.UnOp, a aval, mem map[*ssa.Alloc][]aval, escapes func(*ssa.Alloc) bool) aval {
